@@ -2273,6 +2273,11 @@ impl Zeroconf {
                         false
                     };
 
+                    // Probes created by the announcement attempt need their wake-up timers.
+                    for timer in dns_registry.new_timers.drain(..) {
+                        self.timers.push(Reverse(timer));
+                    }
+
                     if announced_v4 || announced_v6 {
                         let next_time = now + 1000;
                         let command =
